@@ -710,6 +710,10 @@ def units(tier, seed):
         add(3, 3, torus, 2, 20, 1, split=3)
     add(3, 3, True, 1, 20, 2, src=(0, 0), split=2)
     add(3, 3, False, 1, 0, 2, src=((0, 0), (1, 0), (1, 1)), split=3)
+    # ---- F4b: lines: a route of >= 4 nodes before the last sink is joined
+    # (radius 0: the concentric-hexagon search of ner_net is used instead of
+    # the scan over the route)
+    add(1, 5, False, 1, 0, 3, src=(0, 0), split=3)
     # ---- F5: the has_wrap_around_links stub is exact ----------------------
     for (w, h) in ((1, 1), (1, 2), (2, 1), (2, 2), (2, 3)):
         wrap(w, h, K1, True, split=2)
